@@ -338,7 +338,7 @@ def scen_e2e(ch, params, out):
     import json
     from vflib import clienv
     a1, a2 = ch.choose("argv_atoms", [(a, b) for a in [None] + ATOMS for b in [None] + ATOMS], shard=True)
-    pre_kind = ch.choose("preamble", ["none", "blank", "comment", "code", "atom", "atom_padded", "odd_separators", "backslashes"])
+    pre_kind = ch.choose("preamble", ["none", "blank", "comment", "code", "atom", "atom_padded", "odd_separators", "backslashes", "blank_line_runs"])
     fw = ch.choose("framework", params.get("frameworks", ["base", "pydantic", "attrs", "dataclasses"]))
     scalars_only = ch.flag("sample_without_imports")
     doc = [{"a": 1, "b": 2.5}] if scalars_only else [{"a": [1, "s"], "b": "2020"}]
@@ -347,7 +347,9 @@ def scen_e2e(ch, params, out):
     pre = {"none": None, "blank": " \n\t ", "comment": "# generated, do not edit", "code": "import os\nX = os.sep",
            "atom": (a1 or "#") , "atom_padded": "\n  # " + (a2 or "x") + "  \n",
            # characters that str.splitlines() treats as line ends but the Python tokenizer does not; escapes a regex template would process
-           "odd_separators": 'SEP = "a\u2028b\x0cc\x85d"  # \u2029 end', "backslashes": 'PAT = r"\\d+\\1"; P2 = "C:\\\\temp\\n"'}[pre_kind]
+           "odd_separators": 'SEP = "a\u2028b\x0cc\x85d"  # \u2029 end', "backslashes": 'PAT = r"\\d+\\1"; P2 = "C:\\\\temp\\n"',
+           # runs of blank lines and trailing spaces inside the preamble (a tidy-up pass over the assembled module would alter them)
+           "blank_line_runs": '# first\n\n\n\n\n# second   \nBANNER = """a\n\n\n\n\n\nb  \n"""\n\n\n\n# third'}[pre_kind]
     if pre_kind == "atom":
         pre = "# " + pre.replace("\n", " ")
     if pre is not None:
